@@ -163,7 +163,23 @@ def d2_policy_sequence(n, seed, seq, fails):
         ep = link.server_ep
         ep.feed(b'<getProperties version="1.7"/>')
         for pol in seq:
-            ep.feed(("<enableBLOB device=\"DEV0\">%s</enableBLOB>" % pol).encode())
+            if pol == "@redefine":
+                # the device announces that it is gone and is then defined again (a driver restart behind a proxy):
+                # what the connection asked for stays in force
+                import indi.message as M
+
+                dev = w.devices[0]
+                dev.send_message(M.DelProperty(device="DEV0"))
+                w.settle()
+                ep.feed(b'<getProperties version="1.7" device="DEV0"/>')
+            elif pol == "@vector-off-on":
+                w.devices[0].g.bl.enabled = False
+                w.settle()
+                w.devices[0].g.bl.enabled = True
+            elif pol == "@blob":
+                w.devices[0].g.bl.a.value = blob_of(10, seed)
+            else:
+                ep.feed(("<enableBLOB device=\"DEV0\">%s</enableBLOB>" % pol).encode())
             w.settle()
         mark = len(ep.written())
         b = blob_of(n, seed)
@@ -174,7 +190,7 @@ def d2_policy_sequence(n, seed, seq, fails):
         els, rest = X.split_elements(tail)
         blobs = [e for e in els if e.startswith("<setBLOBVector")]
         texts = [e for e in els if e.startswith("<setTextVector")]
-        last = seq[-1]
+        last = [x for x in seq if not x.startswith("@")][-1]
         dd = "policy-sequence=%s" % ">".join(seq)
         if bool(blobs) != (last in ("Also", "Only")):
             fails.append(("blob-policy", dd, "n=%d: after enableBLOB %s the connection received %d setBLOBVector" % (n, " then ".join(seq), len(blobs))))
@@ -433,6 +449,11 @@ def _run(shard, tier, seed, what, res, absorb):
                 f = []
                 d2_policy_sequence(200, seed, list(seq), f)
                 absorb(f, dict(kind="polseq", n=200, seed=seed, seq=list(seq)))
+                res["executions"] += 1
+            for seq in (("Also", "@redefine"), ("Only", "@redefine"), ("Also", "@blob", "@redefine"), ("Never", "Also", "@vector-off-on"), ("Only", "@blob", "@vector-off-on"), ("Also", "@redefine", "Never"), ("Never", "@redefine", "Also")):
+                f = []
+                d2_policy_sequence(300, seed, list(seq), f)
+                absorb(f, dict(kind="polseq", n=300, seed=seed, seq=list(seq)))
                 res["executions"] += 1
             for seq in (("Also", "Never", "Only"), ("Only", "Also", "Never"), ("Also", "Also", "Never")):
                 f = []
